@@ -20,13 +20,16 @@ class SharedByLocation(Suite):
     model = 'share'
 
     def corpus(self):
-        m = lambda d, x, y: dict(dir=d, x=x, y=y)
+        m = lambda d, x, y, **k: dict(dict(dir=d, x=x, y=y), **k)
         return [dict(members=[m(0, 1, 1), m(1, 1, 1)]),                       # equal configs, two directories
                 dict(members=[m(0, 1, 1), m(0, 1, 1)]),                       # equal configs, one directory
                 dict(members=[m(0, 1, 1), m(0, 1, 2), m(1, 1, 2), m(1, 2, 2)]),
                 dict(members=[m(0, 1, 1), m(1, 1, 1), m(0, 1, 1), m(2, 1, 1), m(1, 1, 1)]),
                 dict(members=[m(0, 1, 1), m(0, 2, 1), m(0, 1, 2), m(0, 2, 2), m(0, 1, 1)]),
-                dict(members=[m(0, 1, 1)])]
+                dict(members=[m(0, 1, 1)]),
+                # a value that equals the default of the parameter without being it (True for 1, 1.0 for 1): another text, another task
+                dict(members=[m(0, 1, 1), m(0, 1, 1, lim=True), m(0, 1, 1, lim=1), m(0, 1, 1, lim=1.0)]),
+                dict(members=[m(0, 1, 1, lim=0), m(0, 1, 1, lim=False), m(1, 1, 1, lim=0.0), m(0, 1, 1, lim=0.0)])]
 
     def gen(self, rng, tier):
         out = []
@@ -38,10 +41,10 @@ class SharedByLocation(Suite):
     def run_impl(self, case):
         from taskchain import Config, MultiChain
         from .. import pipeline as pl
-        classes = [dict(K(0, 'Src', params=[P('x')]), name='src'), dict(K(1, 'Dst', params=[P('y')], meta_inputs=[{'cls': 0}]), name='dst'),
+        classes = [dict(K(0, 'Src', params=[P('x'), P('lim', default=[1])]), name='src'), dict(K(1, 'Dst', params=[P('y')], meta_inputs=[{'cls': 0}]), name='dst'),
                    dict(K(2, 'Top', meta_inputs=[{'cls': 1}]), name='top')]
         with pl.workspace(dict(classes=classes, files={})) as (d, mod):
-            cfgs = [Config(Path(f'data{m["dir"]}'), name=f'c{i}', data={'tasks': [f'{mod}.*'], 'x': m['x'], 'y': m['y']})
+            cfgs = [Config(Path(f'data{m["dir"]}'), name=f'c{i}', data=dict({'tasks': [f'{mod}.*'], 'x': m['x'], 'y': m['y']}, **({'lim': m['lim']} if 'lim' in m else {})))
                     for i, m in enumerate(case['members'])]
             mc = MultiChain(cfgs)
             walk, ids, seen = [], [], {}
@@ -61,7 +64,7 @@ class SharedByLocation(Suite):
         if 'unexpected_exception' in obs:
             return f'unexpected exception {obs["unexpected_exception"]}: {obs["text"]}'
         def depends(name, m):
-            return (m['dir'], name, m['x']) + ((m['y'],) if name in ('dst', 'top') else ())
+            return (m['dir'], name, m['x'], repr(m.get('lim', 1))) + ((m['y'],) if name in ('dst', 'top') else ())
         walk, ids = obs['walk'], obs['ids']
         for a in range(len(walk)):
             for b in range(a + 1, len(walk)):
